@@ -18,12 +18,15 @@
 (*  tree      files found under DESTDIR after a real `meson install`       *)
 (*  bsfiles   intro-buildsystem_files.json; regen_inputs: inputs of the    *)
 (*            build.ninja regeneration statement                           *)
+(*  requests  the names `meson test <selection>` asked the backend to      *)
+(*            build (argv of the ninja stand-in), per selection            *)
+(*  dat_links / dat_empty  symbolic links and empty directories of         *)
+(*            install.dat (no introspection file lists empty directories)  *)
 (* Every clause returns the set of offending items (empty = holds).        *)
 (***************************************************************************)
-EXTENDS ProjectModel, TLC
+EXTENDS IntroRules, TLC
 
 SeqToSet(s) == Rng(s)
-IsAbs(path) == Len(path) >= 1 /\ SubSeq(path, 1, 1) = "/"
 FileTypes == {"executable", "static library", "shared library", "shared module", "custom", "jar"}
 LinkTypes == {"executable", "static library", "shared library", "shared module"}
 
@@ -77,22 +80,43 @@ CustomSourcesWrong(c, t) ==
 AllInputsDirect(M) == UNION {ExplicitIns(M, e) : e \in {x \in EdgeIds(M) : "all" \in SeqToSet(M.edges[x].outs)}}
 BbdNotAll(c, t) == IF t.bbd = (SeqToSet(t.filenames) \cap AllInputsDirect(c.M) # {}) THEN {} ELSE {t.id}
 
+(* ---- both directions: link / archive statements vs introspected files -------- *)
+\* the link and archive statements of the manifest (rules `<lang>_LINKER`, `STATIC_LINKER`, and their response
+\* file variants): every file they produce is the `filename` of an introspected target
+LinkStmtsOf(M) == {e \in NonPhony(M) : HasSub(M.edges[e].rule, "LINKER")}
+LinkOutputsUnclaimed(c) == ExplicitOutsOf(c.M, LinkStmtsOf(c.M)) \ AllFilenames(c)
+\* what `meson test <tests>` asks the backend to build (mtest: the `filename`s of the targets the selected tests
+\* depend on, or the aggregate meson-test-prereq / meson-benchmark-prereq) are outputs of the manifest ...
+Requests(c) == IF "requests" \in DOMAIN c THEN c.requests ELSE <<>>
+RequestsUnknown(c) == UNION {SeqToSet(Requests(c)[k].asked) : k \in DOMAIN Requests(c)} \ AllOutputs(c.M)
+\* ... and cover every file of every target a selected test depends on
+TargetById(c, id) == {c.targets[t] : t \in {u \in DOMAIN c.targets : c.targets[u].id = id}}
+DependsFilesOf(c, names) ==
+    UNION {UNION {SeqToSet(t.filenames) : t \in UNION {TargetById(c, d) : d \in SeqToSet(c.tests[k].depends)}}
+             : k \in {j \in DOMAIN c.tests : c.tests[j].name \in names}}
+RequestsIncomplete(c) ==
+    UNION {LET r == Requests(c)[k]
+           IN IF {"meson-test-prereq", "meson-benchmark-prereq"} \cap SeqToSet(r.asked) # {} THEN {}
+              ELSE DependsFilesOf(c, SeqToSet(r.sel)) \ SeqToSet(r.asked)
+             : k \in DOMAIN Requests(c)}
+
 (* ---- targets vs the abstract project ------------------------------------ *)
-\* files the generator model owes for the targets of p, all listed by exactly one introspected target
-ModelFiles(p) == {FilePaths(p, p.targets[i]) : i \in {j \in Targets(p) : ~IsRunLike(p.targets[j])}}
+\* files the generator model owes for the targets of p (IntroRules: every naming keyword), each file set
+\* listed by exactly one introspected target; a both-library is two introspected targets
 IntroFiles(c) == {SeqToSet(c.targets[t].filenames) : t \in {u \in DOMAIN c.targets : c.targets[u].type \in FileTypes}}
-\* a both-library is two introspected targets
-SplitBoth(p, S) == IF \E f \in S : EndsWith(f, ".a") /\ \E g \in S : EndsWith(g, ".so")
-                   THEN {{f \in S : EndsWith(f, ".a")}, {f \in S : ~EndsWith(f, ".a")}} ELSE {S}
-ModelFileSets(p) == UNION {SplitBoth(p, S) : S \in ModelFiles(p)}
-TargetsVsModel(c) == (ModelFileSets(c.p) \ IntroFiles(c)) \cup (IntroFiles(c) \ ModelFileSets(c.p))
+BuildableIdx(p) == {j \in Targets(p) : ~IsRunLike(p.targets[j])}
+ModelFileSets(p) == UNION {UNION NamedChoices(p, p.targets[i]) : i \in BuildableIdx(p)}
+TargetsVsModel(c) ==
+    {UNION (CHOOSE alt \in NamedChoices(c.p, c.p.targets[i]) : TRUE)
+        : i \in {j \in BuildableIdx(c.p) : ~\E alt \in NamedChoices(c.p, c.p.targets[j]) : alt \subseteq IntroFiles(c)}}
+    \cup (IntroFiles(c) \ ModelFileSets(c.p))
 \* build_by_default as introspected = as the model derives it
 \* (the manual is silent on `install: true` together with `build_by_default: false` on a build target)
 BbdDefinite(t) == ~(IsBuild(t) /\ t.bbd = "false" /\ t.install)
 BbdWrong(c) ==
     {i \in Targets(c.p) : ~IsRunLike(c.p.targets[i]) /\ BbdDefinite(c.p.targets[i]) /\
         \E t \in DOMAIN c.targets : /\ c.targets[t].type \in FileTypes
-                                    /\ SeqToSet(c.targets[t].filenames) \subseteq FilePaths(c.p, c.p.targets[i])
+                                    /\ SeqToSet(c.targets[t].filenames) \subseteq AllNamedPaths(c.p, c.p.targets[i])
                                     /\ c.targets[t].filenames # <<>>
                                     /\ c.targets[t].bbd # DefaultBuilt(c.p.targets[i])}
 
@@ -161,7 +185,16 @@ OptionText(c, name) ==
 Reported(c, m) ==
     IF m.sp # "" /\ OptionText(c, m.sp \o ":" \o m.name) # "<absent>" THEN OptionText(c, m.sp \o ":" \o m.name)
     ELSE OptionText(c, m.name)
-OptionsDiffer(c) == {m.sp \o ":" \o m.name \o "=" \o m.text \o "/" \o Reported(c, m)
+\* the kind of disagreement (part of the verdict, so that different defects keep different signatures)
+POptions(p) == IF "options" \in DOMAIN p THEN p.options ELSE <<>>
+IsYielding(c, m) == \E k \in DOMAIN POptions(c.p) : POptions(c.p)[k].name = m.name /\ POptions(c.p)[k].sp = m.sp
+                                                   /\ "yield" \in DOMAIN POptions(c.p)[k] /\ POptions(c.p)[k].yield
+OptCategory(c, m) ==
+    IF m.sp = "" THEN "value-differs"
+    ELSE IF OptionText(c, m.sp \o ":" \o m.name) = "<absent>" THEN "value-in-subproject-not-listed"
+    ELSE IF IsYielding(c, m) THEN "yielding-option-listed-with-its-own-value"
+    ELSE "subproject-option-value-differs"
+OptionsDiffer(c) == {OptCategory(c, m) \o "|" \o m.sp \o ":" \o m.name \o "=" \o m.text \o "/" \o Reported(c, m)
                        : m \in {mm \in {c.messages[k] : k \in DOMAIN c.messages} : Reported(c, mm) # mm.text}}
 
 (* ---- install ------------------------------------------------------------- *)
@@ -179,19 +212,9 @@ InstalledVsDat(c) == {x[1] : x \in ({y \in InstalledSet(c) : IsFileEntry(y)} \ D
 DirValue(c, name) ==
     LET ks == {k \in DOMAIN c.dirs : c.dirs[k][1] = name}
     IN IF ks = {} THEN "<unknown>" ELSE c.dirs[CHOOSE k \in ks : TRUE][2]
-PJoin(a, b) == IF IsAbs(b) THEN b ELSE IF b = "" THEN a ELSE IF a = "" THEN b
-               ELSE IF EndsWith(a, "/") THEN a \o b ELSE a \o "/" \o b
-PlaceholderDir(ph) ==
-    CASE ph \in {"libdir_shared", "libdir_static"} -> "libdir"
-      [] ph = "prefix" -> ""
-      [] OTHER -> ph
-Resolved(c, e) ==
-    IF e.ph = "" THEN PJoin(DirValue(c, "prefix"), e.dest)
-    ELSE IF PlaceholderDir(e.ph) = "" THEN PJoin(DirValue(c, "prefix"), e.rest)
-    ELSE PJoin(PJoin(DirValue(c, "prefix"), DirValue(c, PlaceholderDir(e.ph))), e.rest)
-KnownPlaceholders == {"prefix", "bindir", "libdir", "libdir_shared", "libdir_static", "datadir", "includedir", "mandir",
-                      "libexecdir", "localedir", "sbindir", "sysconfdir", "localstatedir", "sharedstatedir", "infodir",
-                      "licensedir"}
+DirFun(c) == [n \in {c.dirs[k][1] : k \in DOMAIN c.dirs} |-> DirValue(c, n)]
+\* (IntroRules.ResolvedV: {placeholder} -> value of the directory option, relative to the prefix)
+Resolved(c, e) == ResolvedV(DirFun(c), e)
 PlanVsInstalled(c) ==
     {c.plan[k].src : k \in {j \in DOMAIN c.plan : c.plan[j].ph \in KnownPlaceholders \cup {""} /\
                                <<c.plan[j].src, Resolved(c, c.plan[j])>> \notin InstalledSet(c)}}
@@ -199,11 +222,32 @@ PlanVsInstalled(c) ==
 DirFiles(c, src) == LET ks == {k \in DOMAIN c.dir_listing : c.dir_listing[k][1] = src}
                     IN IF ks = {} THEN {} ELSE SeqToSet(c.dir_listing[CHOOSE k \in ks : TRUE][2])
 IsDirEntry(c, src) == \E k \in DOMAIN c.dat : c.dat[k].src = src /\ c.dat[k].isdir
+\* symbolic links are listed by intro-installed.json under their name; empty directories are in no introspection
+\* file (the property does not ask for them): they are taken from install.dat so that the comparison stays exact
+DatLinks(c) == IF "dat_links" \in DOMAIN c THEN SeqToSet(c.dat_links) ELSE {}
+DatEmpty(c) == IF "dat_empty" \in DOMAIN c THEN {d \o "/" : d \in SeqToSet(c.dat_empty)} ELSE {}
 ExpectedTree(c) ==
     UNION {IF IsDirEntry(c, x[1]) THEN {PJoin(x[2], f) : f \in DirFiles(c, x[1])} ELSE {x[2]}
              : x \in {y \in InstalledSet(c) : IsFileEntry(y)}}
+    \cup {x[2] : x \in {y \in InstalledSet(c) : ~IsFileEntry(y)}}
+    \cup DatEmpty(c)
 TreeVsInstalled(c) ==
     IF ~c.did_install THEN {} ELSE (ExpectedTree(c) \ SeqToSet(c.tree)) \cup (SeqToSet(c.tree) \ ExpectedTree(c))
+\* the symbolic links intro-installed.json names are those `meson install` creates
+LinksVsDat(c) == LET listed == {x[2] : x \in {y \in InstalledSet(c) : ~IsFileEntry(y)}}
+                 IN (listed \ DatLinks(c)) \cup (DatLinks(c) \ listed)
+\* `install_filename` of an installed target: the absolute location of each of its files (and of the aliases
+\* installed with it) - the locations intro-installed.json gives, and for each planned file the resolved
+\* destination of the plan
+InstalledDests(c) == {x[2] : x \in InstalledSet(c)}
+InstallFilenamesWrong(c) ==
+    UNION {LET t == c.targets[u]
+               given == SeqToSet(t.install_filenames) \ {""}
+               owed == {Resolved(c, c.plan[k]) : k \in {j \in DOMAIN c.plan : c.plan[j].section = "targets"
+                                                         /\ c.plan[j].src \in SeqToSet(t.filenames)
+                                                         /\ c.plan[j].ph \in KnownPlaceholders \cup {""}}}
+           IN (given \ InstalledDests(c)) \cup (owed \ given)
+             : u \in {v \in DOMAIN c.targets : c.targets[v].installed /\ c.targets[v].type \in FileTypes}}
 \* installed flag of a target <=> its files are in the plan
 InstalledFlagWrong(c) ==
     {c.targets[t].id : t \in {u \in DOMAIN c.targets :
@@ -215,13 +259,17 @@ ModelInstallItems(p) ==
     UNION {LET it == p.installs[k]
                srcdir == Join("../src", Join(SpDir(it.sp), it.subdir))
                base == CASE it.kind = "data" -> (IF it.install_dir # "" THEN it.install_dir ELSE "{datadir}/" \o (IF it.sp = "" THEN p.name ELSE it.sp))
-                         [] it.kind = "headers" -> (IF it.install_dir # "" THEN it.install_dir ELSE "{includedir}")
-                         [] it.kind = "man" -> (IF it.install_dir # "" THEN it.install_dir ELSE "{mandir}/man1")
+                         [] it.kind = "headers" -> (IF it.install_dir # "" THEN it.install_dir ELSE Join("{includedir}", IHsub(it)))
+                         \* "{mandir}/{locale}/man{num}/foo.1" (install_man.yaml); every page of one rule has the same section here
+                         [] it.kind = "man" -> (IF it.install_dir # "" THEN it.install_dir
+                                                ELSE Join(Join("{mandir}", ILocale(it)), "man" \o Ext(it.files[1])))
                          [] OTHER -> ""
                tag == IF it.tag # "" THEN it.tag ELSE CASE it.kind = "headers" -> "devel" [] it.kind = "man" -> "man" [] OTHER -> ""
-           IN IF it.kind \notin {"data", "headers", "man"} \/ it.rename # <<>> THEN {}
+           \* (the spelling of an expression-located directory in the plan is left open: see InstallTreeVsModel)
+           IN IF it.kind \notin {"data", "headers", "man"} \/ it.rename # <<>> \/ IDir(it).how # "none" THEN {}
               \* preserve_path keeps the directory part of the source below the install directory
-              ELSE {<<Join(srcdir, it.files[f]), Join(base, IF it.preserve THEN it.files[f] ELSE Base(it.files[f])), tag, it.sp>>
+              ELSE {<<Join(srcdir, it.files[f]),
+                      Join(base, IF it.preserve THEN it.files[f] ELSE Base(StripLocale(it.files[f], ILocale(it)))), tag, it.sp>>
                       : f \in DOMAIN it.files}
              : k \in DOMAIN p.installs}
 \* install_subdir(dir, install_dir: D [, strip_directory: true]): the directory lands in D/<dir> (in D itself when
@@ -231,7 +279,7 @@ ModelSubdirItems(p) ==
                srcdir == Join("../src", Join(SpDir(it.sp), it.subdir))
                d == IF it.install_dir = "" THEN "share/sd" ELSE it.install_dir
                base == IF IsAbs(d) \/ (Len(d) >= 1 /\ SubSeq(d, 1, 1) = "{") THEN d ELSE "{prefix}/" \o d
-           IN IF it.kind # "subdir" THEN {}
+           IN IF it.kind # "subdir" \/ IDir(it).how # "none" THEN {}
               \* the directory may be spelled with a trailing slash ('docs/'): it is still the directory docs
               ELSE LET dn == IF EndsWith(it.files[1], "/") THEN DropSuffix(it.files[1], 1) ELSE it.files[1]
                    IN {<<Join(srcdir, dn), IF it.strip THEN base ELSE Join(base, dn)>>}
@@ -247,6 +295,27 @@ PlanVsTree(c) ==
                 IN want \ SeqToSet(c.tree)
                   : k \in {j \in DOMAIN c.plan : c.plan[j].ph \in KnownPlaceholders \cup {""}}}
 ModelInstallMissing(c) == {x[1] \o " -> " \o x[2] \o " [" \o x[3] \o "]" : x \in ModelInstallItems(c.p) \ PlanSet(c)}
+\* ... and, the other way round, everything that landed is promised by the plan (a symbolic link or an empty
+\* directory: by install.dat - the plan has no section for them)
+PlanPaths(c) ==
+    UNION {LET e == c.plan[k]
+           IN IF IsDirEntry(c, e.src) THEN {PJoin(Resolved(c, e), f) : f \in DirFiles(c, e.src)} ELSE {Resolved(c, e)}
+             : k \in {j \in DOMAIN c.plan : c.plan[j].ph \in KnownPlaceholders \cup {""}}}
+PlanFullyKnown(c) == \A k \in DOMAIN c.plan : c.plan[k].ph \in KnownPlaceholders \cup {""}
+TreeVsPlan(c) ==
+    IF ~c.did_install \/ ~PlanFullyKnown(c) THEN {}
+    ELSE SeqToSet(c.tree) \ (PlanPaths(c) \cup DatLinks(c) \cup DatEmpty(c))
+\* the tree the build definition owes (IntroRules.ModelTreeMust / May: every install rule kind, every spelling of
+\* the directory, evaluated with the introspected option values) is the tree `meson install` creates
+InstallTreeVsModel(c) ==
+    IF ~c.did_install \/ ~PModelTree(c.p) THEN {}
+    ELSE (ModelTreeMust(c.p, DirFun(c)) \ SeqToSet(c.tree)) \cup (SeqToSet(c.tree) \ ModelTreeMay(c.p, DirFun(c)))
+\* ... and the one the plan promises (placeholders resolved through intro-buildoptions.json)
+InstallPlanVsModel(c) ==
+    IF ~PModelTree(c.p) \/ ~PlanFullyKnown(c) THEN {}
+    ELSE LET links == {x[2] : x \in {y \in InstalledSet(c) : ~IsFileEntry(y)}}
+             promised == PlanPaths(c) \cup links \cup DatEmpty(c)
+         IN (ModelTreeMust(c.p, DirFun(c)) \ promised) \cup (promised \ ModelTreeMay(c.p, DirFun(c)))
 
 (* ---- build system files -------------------------------------------------- *)
 
@@ -270,5 +339,16 @@ ModelBuildFiles(p) ==
     {Join(d, "meson.build") : d \in DirsEntered(p)}
     \cup {Join(SpDir(p.options[i].sp), "meson.options") : i \in DOMAIN p.options}
     \cup {Join(Join(SpDir(p.conf[i].sp), p.conf[i].subdir), "conf" \o ToString(i) \o ".in") : i \in DOMAIN p.conf}
+    \* (an installed configure_file(): kind "conf" of p.installs, its input is <output>.in)
+    \cup {Join(Join(SpDir(p.installs[i].sp), p.installs[i].subdir), p.installs[i].files[1] \o ".in")
+            : i \in {j \in DOMAIN p.installs : p.installs[j].kind = "conf"}}
+\* "lists exactly the build-definition files that were read": the meson.build / meson.options / meson_options.txt
+\* files below the source directory that meson opened while configuring (observed with strace on an identical
+\* second configuration, whose own intro-buildsystem_files.json is compared), both directions; files of other
+\* names (inputs of configure_file()) are only required to be files that exist
+IsBuildDef(f) == Base(f) \in {"meson.build", "meson.options", "meson_options.txt"}
+BsVsRead(c) ==
+    IF ~("did_trace" \in DOMAIN c) \/ ~c.did_trace THEN {}
+    ELSE (SeqToSet(c.read_files) \ SeqToSet(c.read_bsfiles)) \cup ({f \in SeqToSet(c.read_bsfiles) : IsBuildDef(f)} \ SeqToSet(c.read_files))
 BsVsModel(c) == (BsSet(c) \ ModelBuildFiles(c.p)) \cup (ModelBuildFiles(c.p) \ BsSet(c))
 =============================================================================
